@@ -12,19 +12,23 @@ import (
 
 const verifIdent = "aet_.-" // letters (two of them occur in the keywords) and the punctuation that may continue a name
 
-var verifSeps = []string{" ", "  ", "\t"}
+var verifSepsAll = []string{" ", "\t", "\f", "  ", " \f"} // WHITESPACE of the grammar: blanks, tabs and form feeds
 
-var verifIndents = []string{"", " ", "\t", "  ", "\t "} // the grammar admits blanks and tabs
+var verifIndentsAll = []string{"", "\t", "\f", " ", "\t ", "  "} // the grammar admits blanks, tabs and form feeds
+
+// the first NS separators / NI indents of the lists (parameters; default: all)
+func verifSepList() []string    { return verifSepsAll[:zzverif.Param("NS", len(verifSepsAll))] }
+func verifIndentList() []string { return verifIndentsAll[:zzverif.Param("NI", len(verifIndentsAll))] }
 
 func verifDeclLines(kw string, nameLen int, tails []string) (names []string, lines []string) {
 	cnt := 1 + zzverif.Choose("decls", zzverif.Param("D", 3))
 	for i := 0; i < cnt; i++ {
 		nm := zzverif.Str("name", 1, nameLen, verifIdent)
-		indent := verifIndents[zzverif.Choose("indent", len(verifIndents))]
+		indent := verifIndentList()[zzverif.Choose("indent", len(verifIndentList()))]
 		tail := tails[zzverif.Choose("tail", len(tails))]
 		names = append(names, nm)
 		// the grammar admits any run of blanks and tabs between the keyword(s) and the name
-		sep := verifSeps[zzverif.Choose("separator", len(verifSeps))]
+		sep := verifSepList()[zzverif.Choose("separator", len(verifSepList()))]
 		lines = append(lines, indent+strings.ReplaceAll(kw, " ", sep)+sep+nm+tail)
 	}
 	return
@@ -77,7 +81,7 @@ func VerifC16_Column() {
 	indent := strings.Repeat(" ", zzverif.Choose("indent", 4))
 	kws := []string{"type", "extend type", "define", "condition"}
 	kw := kws[zzverif.Choose("keyword", len(kws))]
-	sep := verifSeps[zzverif.Choose("separator", len(verifSeps))]
+	sep := verifSepList()[zzverif.Choose("separator", len(verifSepList()))]
 	line := indent + kw + sep + nm + []string{"", ": a", "(x: int) {", " # t"}[zzverif.Choose("tail", 4)]
 	nameAt := len(indent) + len(kw) + len(sep)
 	other := "type " + zzverif.Str("other", 1, 2, verifIdent)
@@ -103,7 +107,7 @@ func VerifC16_Column() {
 // scanner over indices, independent of the code under test (no Trim/Cut/Fields).
 func verifSpecDeclares(line string, words []string, name string) bool {
 	i := 0
-	blank := func(c byte) bool { return c == ' ' || c == '\t' }
+	blank := func(c byte) bool { return c == ' ' || c == '\t' || c == '\f' }
 	for i < len(line) && (blank(line[i]) || line[i] == '\n' || line[i] == '\r' || line[i] == '\v' || line[i] == '\f') {
 		i++ // TrimSpace of the whole line comes first in the code: leading white space of any kind is skipped
 	}
@@ -150,9 +154,9 @@ func verifLookup(k int, name string, lines []string) int {
 // characters (bare keyword, half a keyword, `extend` alone, ...), then optionally blanks, then up to T
 // arbitrary characters.
 func verifOddLine(k int) string {
-	phrase := strings.Join(verifKeywords[k], verifSeps[zzverif.Choose("separator", len(verifSeps))])
+	phrase := strings.Join(verifKeywords[k], verifSepList()[zzverif.Choose("separator", len(verifSepList()))])
 	cut := zzverif.Choose("cut", len(phrase)+1)
-	line := verifIndents[zzverif.Choose("indent", len(verifIndents))] + phrase[:cut]
+	line := verifIndentList()[zzverif.Choose("indent", len(verifIndentList()))] + phrase[:cut]
 	line += []string{"", " ", "\t", "  "}[zzverif.Choose("blanks", 4)]
 	return line + zzverif.Str("rest", 0, zzverif.Param("T", 2), "aet \t#:")
 }
